@@ -65,9 +65,8 @@ func c04RandLogs(r *Rng, max int) []famLog {
 	for i := range logs {
 		l := famLog{Level: famRandLevel(r), Msg: famRandText(r)}
 		if r.Chance(45) {
-			keys := []string{"a", "b", "k", "K", "", "zz", "ключ", "a b", "user.id", "a"}
 			for j := r.Range(1, 4); j > 0; j-- {
-				l.Extras = append(l.Extras, vgirpc.KV{Key: Pick(r, keys), Value: famRandText(r)})
+				l.Extras = append(l.Extras, vgirpc.KV{Key: famRandKey(r), Value: famRandText(r)})
 			}
 		}
 		logs[i] = l
@@ -296,7 +295,7 @@ func c04Oracle(c *Case, call *c04Call, info vgirpc.VerifC04Method, st famStream,
 	var want []lg
 	for _, sl := range call.script.Logs {
 		if famKept(call.lvl, sl.Level) {
-			want = append(want, lg{sl.Level, sl.Msg, famKVCanon(famExtrasMap(sl.Extras))})
+			want = append(want, lg{sl.Level, sl.Msg, famKVCanon(famJSONRoundTrip(famExtrasMap(sl.Extras)))})
 			c.Stat("log-kept")
 		} else {
 			c.Stat("log-filtered")
@@ -321,6 +320,11 @@ func c04Oracle(c *Case, call *c04Call, info vgirpc.VerifC04Method, st famStream,
 		lvl, _ := b.get(vgirpc.MetaLogLevel)
 		msg, _ := b.get(vgirpc.MetaLogMessage)
 		_, ex := b.extras()
+		if ex == "?json" {
+			raw, _ := b.get(vgirpc.MetaLogExtra)
+			fail("log-extra-not-json", "log batch %d: vgi_rpc.log_extra is not a JSON object of strings: %q", i, raw)
+			return
+		}
 		got = append(got, lg{lvl, msg, ex})
 		if b.rid() != wantRid {
 			fail("request-id-not-echoed-log", "log batch %d carries request id %s, want %s", i, b.rid(), wantRid)
@@ -344,9 +348,12 @@ func c04Oracle(c *Case, call *c04Call, info vgirpc.VerifC04Method, st famStream,
 	}
 	for i := range got {
 		if got[i] != want[i] {
-			if !famKept(call.lvl, got[i].lvl) {
+			switch {
+			case !famKept(call.lvl, got[i].lvl):
 				fail("log-below-level-delivered", "log at level %q delivered though %q was requested", got[i].lvl, call.lvl)
-			} else {
+			case got[i].lvl == want[i].lvl && got[i].msg == want[i].msg:
+				fail("log-extra-lost", "log %d (%q) arrived with extras %s, the handler passed %s", i, got[i].msg, got[i].ex, want[i].ex)
+			default:
 				fail("log-order-or-content", "log %d is %v, want %v", i, got[i], want[i])
 			}
 			return
